@@ -508,6 +508,12 @@ class SymInt:
     def __str__(self):
         return E().registry_token(self)
 
+    def __deepcopy__(self, memo):
+        return self          # immutable, like int
+
+    def __copy__(self):
+        return self
+
     def __getattr__(self, name):
         raise Inconclusive('int.%s is not modelled for symbolic ints' % name)
 
@@ -1120,6 +1126,12 @@ class SymStr:
 
     def __repr__(self):
         return '<symstr %d>' % _len(self.cp)
+
+    def __deepcopy__(self, memo):
+        return self          # immutable, like str
+
+    def __copy__(self):
+        return self
 
     def __getattr__(self, name):
         raise Inconclusive('str.%s() is not modelled for symbolic str' % name)
